@@ -34,7 +34,7 @@ import (
 
 type c11CaseB struct {
 	Part        string      `json:"part"`
-	Variant     string      `json:"variant"` // plain | badconf | baddirective
+	Variant     string      `json:"variant"` // plain | badconf | typeconf | typeconf2 | baddirective
 	Levels      [3]c11Level `json:"levels"`
 	Checks      c11Level    `json:"checks"`
 	Fail        c11Level    `json:"fail"`
@@ -185,6 +185,30 @@ func c11WriteModule(root, variant string) error {
 
 const c11BadConf = "checks = [\"all\"\n"
 
+// c11Broken describes the variants with a staticcheck.conf that cannot be loaded: the level
+// (2 = d/, 3 = d/s/) that carries it, its content, and the one problem it must produce.
+//   - badconf:   TOML syntax error   -> "config" problem positioned in the file
+//   - typeconf:  TOML type error in d/s/ -> "compile" problem WITHOUT a position; m and d are analysed
+//   - typeconf2: the same in d/          -> only m is analysed
+type c11Broken struct {
+	level   int
+	content string
+	file    string // file of the resulting problem ("" = no position)
+	check   string
+}
+
+func c11BrokenOf(variant string) (c11Broken, bool) {
+	switch variant {
+	case "badconf":
+		return c11Broken{2, c11BadConf, "d/" + config.ConfigName, "config"}, true
+	case "typeconf":
+		return c11Broken{3, "checks = \"SA1000\"\n", "", "compile"}, true
+	case "typeconf2":
+		return c11Broken{2, "checks = \"SA1000\"\n", "", "compile"}, true
+	}
+	return c11Broken{}, false
+}
+
 func c11WriteTree(root, variant string, levels [3]c11Level) error {
 	dirs := [3]string{root, filepath.Join(root, "d"), filepath.Join(root, "d", "s")}
 	for i, l := range levels {
@@ -192,8 +216,8 @@ func c11WriteTree(root, variant string, levels [3]c11Level) error {
 			return err
 		}
 	}
-	if variant == "badconf" {
-		return os.WriteFile(filepath.Join(dirs[1], config.ConfigName), []byte(c11BadConf), 0o644)
+	if b, ok := c11BrokenOf(variant); ok {
+		return os.WriteFile(filepath.Join(dirs[b.level-1], config.ConfigName), []byte(b.content), 0o644)
 	}
 	return nil
 }
@@ -262,6 +286,7 @@ func c11Rel(root, file string) string {
 
 var (
 	c11TextRe      = regexp.MustCompile(`^(.+?):(\d+):(\d+): (.*) \(([A-Za-z0-9]+)\)$`)
+	c11TextNoPosRe = regexp.MustCompile(`^-: (.*) \(([A-Za-z0-9]+)\)$`)
 	c11TextRelRe   = regexp.MustCompile(`^\t(.+?):(\d+):(\d+): (.*)$`)
 	c11StylishRe   = regexp.MustCompile(`^  \((\d+), (\d+)\)\s+(\S+)\s+(.*)$`)
 	c11StylishRel  = regexp.MustCompile(`^    \((\d+), (\d+)\)\s+(.*)$`)
@@ -283,6 +308,10 @@ func c11ParseText(root string, out []byte) ([]c11Problem, error) {
 			ps[len(ps)-1].Related += fmt.Sprintf("%s:%s:%s;", m[2], m[3], m[4])
 			continue
 		}
+		if m := c11TextNoPosRe.FindStringSubmatch(line); m != nil { // problem without a position
+			ps = append(ps, c11Problem{Msg: m[1], Check: m[2]})
+			continue
+		}
 		m := c11TextRe.FindStringSubmatch(line)
 		if m == nil {
 			return nil, fmt.Errorf("unparseable text line %q", line)
@@ -297,7 +326,7 @@ type c11Stats struct{ total, errors, warnings, ignored int }
 func c11ParseStylish(root string, out []byte) ([]c11Problem, *c11Stats, error) {
 	var ps []c11Problem
 	var st *c11Stats
-	file := ""
+	file, haveFile := "", false
 	for _, line := range strings.Split(strings.TrimSuffix(string(out), "\n"), "\n") {
 		switch {
 		case line == "":
@@ -312,12 +341,14 @@ func c11ParseStylish(root string, out []byte) ([]c11Problem, *c11Stats, error) {
 			ps[len(ps)-1].Related += fmt.Sprintf("%s:%s:%s;", m[1], m[2], m[3])
 		case c11StylishRe.MatchString(line):
 			m := c11StylishRe.FindStringSubmatch(line)
-			if file == "" {
+			if !haveFile {
 				return nil, nil, fmt.Errorf("problem line before a file header: %q", line)
 			}
 			ps = append(ps, c11Problem{File: file, Line: atoi(m[1]), Col: atoi(m[2]), Check: m[3], Msg: m[4]})
+		case line == "-": // header of the problems without a position
+			file, haveFile = "", true
 		case !strings.HasPrefix(line, " "):
-			file = c11Rel(root, line)
+			file, haveFile = c11Rel(root, line), true
 		default:
 			return nil, nil, fmt.Errorf("unparseable stylish line %q", line)
 		}
@@ -480,7 +511,7 @@ func (e *c11E2E) treeDir(variant string, levels [3]c11Level) (string, error) {
 func (e *c11E2E) base(variant string) bool {
 	res := e.env.res
 	v := variant
-	if v == "badconf" {
+	if _, ok := c11BrokenOf(v); ok {
 		v = "plain" // P_all of the root package comes from the conf-free plain module
 	}
 	if _, ok := e.pall[v]; ok {
@@ -669,14 +700,15 @@ func (e *c11E2E) evalCase(c c11CaseB, worker int, count bool) (vkey, vmsg string
 	}
 	// reference
 	var want []c11Problem
+	broken, isBroken := c11BrokenOf(c.Variant)
 	var allowed [4]c11Bits
 	for k := 1; k <= 3; k++ {
 		allowed[k] = env.m.allowed(c.Levels[:k], c.Checks)
 	}
 	fail := env.m.failSet(c.Fail)
 	for _, p := range e.pall[c.Variant] {
-		if c.Variant == "badconf" && c11LevelsOf(p.File) > 1 {
-			continue // packages below the malformed file are not analysed; they yield the config problem
+		if isBroken && c11LevelsOf(p.File) >= broken.level {
+			continue // packages at and below the malformed file are not analysed; they yield the one config/compile problem
 		}
 		if p.Ignored && !c.ShowIgnored {
 			continue
@@ -716,11 +748,12 @@ func (e *c11E2E) evalCase(c c11CaseB, worker int, count bool) (vkey, vmsg string
 			}
 		}
 	}
-	if c.Variant == "badconf" {
+	if isBroken {
 		wantExit = 1
 	}
 
 	got := map[string][]string{}
+	brokenMsg := map[string]string{}
 	var firstMsg []string
 	bad := func(format string, a ...any) { firstMsg = append(firstMsg, fmt.Sprintf(format, a...)) }
 	exitMismatchOnlyShowIgnored := true
@@ -750,27 +783,28 @@ func (e *c11E2E) evalCase(c c11CaseB, worker int, count bool) (vkey, vmsg string
 			bad("-f %s: output is not a list of problems: %v (stdout %q, stderr %q)", f, perr, clip(r.stdout), clip(r.stderr))
 			continue
 		}
-		if c.Variant == "badconf" {
-			// exactly one config problem, at the malformed file; its text is compared across formats only
+		if isBroken {
+			// exactly one config/compile problem for the malformed file; its text is compared across formats
 			n := 0
 			var rest []c11Problem
 			for _, p := range ps {
-				if p.Check == "config" && p.File == "d/"+config.ConfigName {
+				if p.Check == broken.check && p.File == broken.file {
 					n++
+					brokenMsg[f] = fmt.Sprintf("%d:%d:%s", p.Line, p.Col, p.Msg)
 					p.Msg, p.Line, p.Col = "<config error>", 0, 0
 				}
 				rest = append(rest, p)
 			}
 			if n != 1 {
-				bad("-f %s: %d config problems for the malformed d/staticcheck.conf, want 1", f, n)
+				bad("-f %s: %d %s problems (file %q) for the malformed staticcheck.conf, want 1 (stdout %q)", f, n, broken.check, broken.file, clip(r.stdout))
 			}
 			ps = rest
 		}
 		ids := c11IDs(ps)
 		got[f] = ids
 		wids := wantIDs
-		if c.Variant == "badconf" {
-			wids = append(append([]string{}, wantIDs...), c11Problem{File: "d/" + config.ConfigName, Check: "config", Msg: "<config error>"}.id())
+		if isBroken {
+			wids = append(append([]string{}, wantIDs...), c11Problem{File: broken.file, Check: broken.check, Msg: "<config error>"}.id())
 			sort.Strings(wids)
 		}
 		if !c11SameIDs(ids, wids) {
@@ -814,12 +848,17 @@ func (e *c11E2E) evalCase(c c11CaseB, worker int, count bool) (vkey, vmsg string
 			}
 		}
 		if f == "stylish" && st != nil && !c.ShowIgnored {
-			if st.errors+st.warnings != len(ps) || st.errors != wantErrors+btoi(c.Variant == "badconf") {
-				bad("-f stylish: summary says %d errors, %d warnings for %d printed problems (reference: %d errors)", st.errors, st.warnings, len(ps), wantErrors+btoi(c.Variant == "badconf"))
+			if st.errors+st.warnings != len(ps) || st.errors != wantErrors+btoi(isBroken) {
+				bad("-f stylish: summary says %d errors, %d warnings for %d printed problems (reference: %d errors)", st.errors, st.warnings, len(ps), wantErrors+btoi(isBroken))
 			}
 		}
 	}
 	// formats among each other
+	for _, f := range c11Formats[1:] {
+		if a, b := brokenMsg["text"], brokenMsg[f]; a != "" && b != "" && a != b {
+			bad("formats disagree on the problem of the malformed staticcheck.conf: text %q, %s %q", a, f, b)
+		}
+	}
 	for _, f := range c11Formats[1:] {
 		if a, b := got["text"], got[f]; a != nil && b != nil && !c11SameIDs(a, b) {
 			x, y := c11SetDiff(a, b)
@@ -864,7 +903,7 @@ func c11L(s ...string) c11Level { return c11Level{Set: true, List: s} }
 // c11CasesB is the covering set. Tree shape = which of the three levels carry a conf file.
 //   - every tree shape x every -checks list (lists on the set levels rotating);
 //   - trees over a small set of lists (thorough: all 125 trees, each with 5 of the 8 -checks lists;
-//     quick: every third of the 64 trees with a rotating -checks list);
+//     quick: every fourth of the 64 trees with a rotating -checks list);
 //   - -fail rotates so that every (-checks, -fail) pair occurs;
 //   - a few -show-ignored runs, runs with a malformed staticcheck.conf in d/, runs with a
 //     malformed //lint:ignore directive in d/bad.go.
@@ -941,6 +980,16 @@ func c11CasesB() []c11CaseB {
 			add(c11CaseB{Variant: "badconf", Levels: [3]c11Level{r, none, choices[(i+j)%2]}, Checks: f, Fail: fails[(i+j)%2]})
 		}
 	}
+	// staticcheck.conf with a TOML type error: the resulting problem has NO position and sorts before
+	// all located problems. typeconf (in d/s/): m and d are analysed -> >= 2 located problems by
+	// default; typeconf2 (in d/) with -checks=SA4006: exactly one located problem; -checks=XX999: none.
+	for i, r := range []c11Level{none, lists[0]} {
+		add(c11CaseB{Variant: "typeconf", Levels: [3]c11Level{r, none, none}, Fail: fails[i]})
+		add(c11CaseB{Variant: "typeconf", Levels: [3]c11Level{r, lists[1], none}, Checks: c11L("inherit", "ST1000"), Fail: fails[2+i]})
+		add(c11CaseB{Variant: "typeconf2", Levels: [3]c11Level{r, none, none}, Checks: c11L("SA4006"), Fail: fails[i]})
+	}
+	add(c11CaseB{Variant: "typeconf2", Checks: c11L("XX999")})
+	add(c11CaseB{Variant: "typeconf2", ShowIgnored: true, Fail: c11L("S1005")})
 	// malformed //lint:ignore directive in d/bad.go
 	for i, lv := range [][3]c11Level{{}, {none, lists[1], none}, {lists[2], lists[0], none}} {
 		for j, f := range []c11Level{{}, c11L("XX999"), c11L("all")} {
@@ -975,7 +1024,7 @@ func c11CasesB() []c11CaseB {
 							add(c11CaseB{Variant: "plain", Levels: [3]c11Level{r, d, s}, Checks: f})
 						}
 					}
-				} else if ti%3 == 1 {
+				} else if ti%4 == 1 {
 					add(c11CaseB{Variant: "plain", Levels: [3]c11Level{r, d, s}, Checks: flags[ti%len(flags)]})
 				}
 			}
@@ -1039,7 +1088,7 @@ func (env *c11Env) runPartB() {
 	for _, c := range cases {
 		env.prepare(c.Levels[0].List, c.Levels[1].List, c.Levels[2].List, c.Checks.List, c.Fail.List)
 	}
-	for _, v := range []string{"plain", "badconf", "baddirective"} {
+	for _, v := range []string{"plain", "badconf", "typeconf", "typeconf2", "baddirective"} {
 		if !e.base(v) {
 			return
 		}
